@@ -596,6 +596,10 @@ func (pc *parentController) syncParentObject(parent *unstructured.Unstructured) 
 		return nil
 	}
 
+	// The generation of the parent that the hooks are about to see. This is what
+	// status.observedGeneration must report, even if we re-read the parent later.
+	observedGeneration := parent.GetGeneration()
+
 	// Claim all matching child resources, including orphan/adopt as necessary.
 	observedChildren, err := pc.claimChildren(parent)
 	if err != nil {
@@ -681,7 +685,7 @@ func (pc *parentController) syncParentObject(parent *unstructured.Unstructured) 
 
 	// Update parent status.
 	// We'll want to make sure this happens after manageChildren once we support observedGeneration.
-	if _, err := pc.updateParentStatus(parent, syncResult.Status); err != nil {
+	if _, err := pc.updateParentStatus(parent, observedGeneration, syncResult.Status); err != nil {
 		if apierrors.IsNotFound(err) {
 			// Swallow the error since there's no point retrying if the parent is gone.
 			pc.logger.V(4).Info("Parent object has been deleted", "parent_kind", pc.parentResource.Kind, "object", klog.KRef(parent.GetNamespace(), parent.GetName()))
@@ -798,13 +802,13 @@ func (pc *parentController) claimChildren(parent *unstructured.Unstructured) (co
 	return childMap, nil
 }
 
-func (pc *parentController) updateParentStatus(parent *unstructured.Unstructured, status map[string]interface{}) (*unstructured.Unstructured, error) {
+func (pc *parentController) updateParentStatus(parent *unstructured.Unstructured, observedGeneration int64, status map[string]interface{}) (*unstructured.Unstructured, error) {
 	// Inject ObservedGeneration before comparing with old status,
 	// so we're comparing against the final form we desire.
 	if status == nil {
 		status = make(map[string]interface{})
 	}
-	status["observedGeneration"] = parent.GetGeneration()
+	status["observedGeneration"] = observedGeneration
 
 	// Overwrite .status field of parent object without touching other parts.
 	// We can't use Patch() because we need to ensure that the UID matches.
